@@ -29,7 +29,7 @@ static int n_open, open_flags, open_mode, n_unlink, n_close;
 static int n_fcntl, first_cmd, l_type, l_whence;
 static long l_start, l_len;
 static int lock_result = 0;            /* what the interposed fcntl answers for F_SETLK */
-static int n_getlk;
+static int n_getlk, getlk_answer, getlk_before_setlk;   /* getlk_answer: 0 = F_GETLK says unlocked, 1 = held by pid 1 */
 
 static int p_open(const char *path, int flags, ...) {
     va_list ap; int mode; va_start(ap, flags); mode = va_arg(ap, int); va_end(ap);
@@ -38,7 +38,12 @@ static int p_open(const char *path, int flags, ...) {
 }
 static int p_fcntl(int fd, int cmd, ...) {
     va_list ap; struct flock *fl; va_start(ap, cmd); fl = va_arg(ap, struct flock *); va_end(ap);
-    if (cmd == F_GETLK) { n_getlk++; fl->l_type = F_WRLCK; fl->l_pid = 1; return 0; }
+    if (cmd == F_GETLK) {
+        n_getlk++;
+        if (n_fcntl == 0) getlk_before_setlk++;
+        if (getlk_answer) { fl->l_type = F_WRLCK; fl->l_pid = 1; } else fl->l_type = F_UNLCK;
+        return 0;
+    }
     if (n_fcntl++ == 0) {
         first_cmd = cmd; l_type = fl->l_type; l_whence = fl->l_whence; l_start = fl->l_start; l_len = fl->l_len;
     }
@@ -71,7 +76,7 @@ int main(void) {
     char dir[] = "/tmp/verif-startprobe-XXXXXX";
     char sock[256], lockp[256], f[256];
     struct conf c;
-    int rc_ok, rc_busy, unl_ok, unl_busy, close_busy;
+    int rc_ok, rc_busy, rc_busy_free, unl_ok, unl_busy, close_busy, getlk_first;
     unsigned modes[] = {0, 0200, 0400, 0600, 0644, 0220, 0202, 0300, 0700, 0777, 04200, 01200};
     unsigned i;
     if (!mkdtemp(dir)) return 2;
@@ -83,13 +88,22 @@ int main(void) {
     rc_ok = setjmp(jb);
     if (rc_ok == 0) lock_create(&c);
     unl_ok = n_unlink;
+    getlk_first = getlk_before_setlk > 0;
     if (c.lockfile_fd >= 0) close(c.lockfile_fd);
     c.lockfile_fd = -1;
-    /* 2: lock held by somebody else (fcntl answers EAGAIN) */
-    lock_result = 1; n_unlink = 0; n_close = 0;
+    /* 2: lock held by somebody else: F_SETLK answers EAGAIN, F_GETLK names the holder */
+    lock_result = 1; getlk_answer = 1; n_unlink = 0; n_close = 0;
     rc_busy = setjmp(jb);
     if (rc_busy == 0) lock_create(&c);
     unl_busy = n_unlink; close_busy = n_close;
+    if (c.lockfile_fd >= 0) close(c.lockfile_fd);
+    c.lockfile_fd = -1;
+    /* 3: the same, but every F_GETLK finds the file unlocked (the holder took the lock after / dropped it before
+          the query): F_SETLK still answers EAGAIN */
+    getlk_answer = 0;
+    rc_busy_free = setjmp(jb);
+    if (rc_busy_free == 0) lock_create(&c);
+    unl_busy += n_unlink - unl_busy;
     if (c.lockfile_fd >= 0) close(c.lockfile_fd);
     unlink(lockp);
     printf("(* GENERATED from src/munged/lock.c by tools/gen_facts.py (probes/start_probe.c) - do not edit *)\n");
@@ -107,7 +121,11 @@ int main(void) {
     printf("Definition lock_free_exits : bool := %s.\n", B(rc_ok != 0));
     printf("Definition lock_free_unlinks : N := %d.\n", unl_ok);
     printf("(* lock_create when F_SETLK answers EAGAIN: exits?; unlink calls made before exiting *)\n");
-    printf("Definition lock_busy_exits : bool := %s.\n", B(rc_busy != 0));
+    printf("(* ... whatever F_GETLK answers before or after (holder named / file found unlocked) *)\n");
+    printf("Definition lock_busy_exits : bool := %s.\n", B(rc_busy != 0 && rc_busy_free != 0));
+    printf("(* lock_create queries the lock (F_GETLK) before its first F_SETLK; exits when the query or the refused F_SETLK names a holder *)\n");
+    printf("Definition lock_getlk_first : bool := %s.\n", B(getlk_first));
+    printf("Definition lock_getlk_held_exits : bool := %s.\n", B(rc_busy != 0));
     printf("Definition lock_busy_unlinks : N := %d.\n", unl_busy);
     /* 3: which modes does the fstat check accept (regular file owned by us) */
     printf("(* permission bits (of a regular file owned by the caller) that _lock_stat accepts *)\n");
